@@ -143,8 +143,8 @@ Definition I1 : interp := mkI
   (fun j => Q2Qc (Z.of_nat j * 3 + 1 # 4)).
 
 (* model-level test: the emitted graph denotes what the source says under I0 and I1 *)
-Definition sem_test (T : optabs) (strict guard : bool) (p : prog) : bool :=
-  match compile T strict guard p with
+Definition sem_test (T : optabs) (strict guard subguard : bool) (p : prog) : bool :=
+  match compile T strict guard subguard p with
   | Ok g => obs_match (obs_src T I0 p) (obs_graph I0 g) && obs_match (obs_src T I1 p) (obs_graph I1 g)
   | Err _ => true
   end.
